@@ -8,7 +8,7 @@ cd $WT || exit 2
 git checkout -q -- src
 out=$M/stage_a_$W.tsv; : > $out
 i=0
-for d in $M/[ms]*.diff; do
+for d in $M/[msnw]*.diff; do
   i=$((i+1)); [ $(( i % NW )) -eq $W ] || continue
   name=$(basename $d .diff)
   git checkout -q -- src
